@@ -13,6 +13,8 @@ Line protocol shared by drv_C02 and drv_C05: replays the harness' operations on 
   inv                            -> inv true|false   (`decide (Inv s)`: the invariant of Properties/C02 on the current state;
                                     the harness asks after `init` and after every primitive / replayed move and expects `true`)
   canSwap a b / canInsert c r p / canPlace c r p x   -> <op> 0|1|throw:runtime_error
+  canSwapAll                     -> canSwapAll <one char 0|1|T(hrow) per ordered pair (a, b), a-major>
+  canInsertAll                   -> canInsertAll <one char per (cell, row, pred in -1 :: rowCells row), cell-major>
   posSwap a b                    -> posSwap x1 y1 x2 y2
   posInsert c r p                -> posInsert x y
   swap a b / insert c r p / shift (c x)* / reorder …  -> <op> ok|throw:runtime_error|guard   (through `State.step`)
@@ -42,6 +44,23 @@ def showBoolE : Except Err Bool → String
   | .ok true => "1"
   | .ok false => "0"
   | .error e => errName e
+
+def charBoolE : Except Err Bool → String
+  | .ok true => "1"
+  | .ok false => "0"
+  | .error .runtime => "T"
+  | .error .guard => "G"
+
+/-- every `canSwap a b` answer of the state, one character each -/
+def canSwapAll (s : State) : String :=
+  String.join ((State.intsUpTo s.nCells).map fun a =>
+    String.join ((State.intsUpTo s.nCells).map fun b => charBoolE (s.canSwap a b)))
+
+/-- every `canInsert c r pred` answer with `pred` = −1 or a cell of row `r` (in list order) -/
+def canInsertAll (s : State) : String :=
+  String.join ((State.intsUpTo s.nCells).map fun c =>
+    String.join ((State.intsUpTo s.nRows).map fun r =>
+      String.join (((-1) :: s.rowCells r).map fun p => charBoolE (s.canInsert c r p))))
 
 def showState (s : State) : String :=
   let rows := (State.intsUpTo s.nRows).map fun r =>
@@ -107,6 +126,8 @@ def stepLine (d : DS) (ws : List String) : DS × List String :=
                          | [] => (d, ["bad-op reset without mark"]))
         | "drop", _ => ({ d with marks := d.marks.drop 1 }, [])
         | "inv", _ => (d, [s!"inv {decide (Inv s)}"])
+        | "canSwapAll", _ => (d, ["canSwapAll " ++ canSwapAll s])
+        | "canInsertAll", _ => (d, ["canInsertAll " ++ canInsertAll s])
         | "canSwap", [c1, c2] => (d, ["canSwap " ++ showBoolE (s.canSwap c1 c2)])
         | "canInsert", [c, r, p] => (d, ["canInsert " ++ showBoolE (s.canInsert c r p)])
         | "canPlace", [c, r, p, x] => (d, ["canPlace " ++ showBoolE (s.canPlace c r p x)])
